@@ -42,6 +42,10 @@ add("C11", "property-based testing (proptest) over 48 macro-stamped static flag 
     "Exploration: format!(\"{:..w$.p$}\", d) for generated decimals, modes, flags, widths 0..=60 and precisions 0..=40 compared with an exact reference (single rounding by mode definitions, pad_integral model).",
     "Trusts the padding model (validated per case against std), the oracle crate and rustc.", "5/C11")
 
+add("C18", "generated programs: batches of grammar-generated literals compiled through the Dec! macro by rustc and compared (values and accept/reject set) with the runtime parser evaluated by the harness",
+    "Exploration over generated programs: P_ok must compile and print from_str's (coefficient, scale) for every accepted literal; P_all must fail exactly on the lines of rejected literals (one proc-macro panic per error line).",
+    "Trusts rustc's per-invocation proc-macro error reporting and cargo; one compiler version; a blank after the sign is not part of the token text.", "5/C18")
+
 def main():
     checks = []
     na = []
